@@ -241,8 +241,9 @@ def h_sqlite_ieee(x, kp_lo, kp_hi, dp_lo=0, dp_hi=None, twin=False):
 def harnesses(tier):
     ST.install_common()
     ST.install_sqlite()
+    ST.install_peewee()
     hs = []
-    for bk in ["memory", "sqlite"]:
+    for bk in ["memory", "sqlite", "peewee"]:
         for mode in ("single", "bulk"):
             hs.append((Harness(PROP, "%s-fidelity-%s" % (bk, mode), h_fidelity, dict(bk=bk, mode=mode), "%s: %s insertion of an event with arbitrary microsecond instant, UTC offset, duration and pooled JSON data; get / get_by_id return it" % (bk, mode)), 900))
         for mode in ("insert", "bulk", "replace", "replace_last"):
@@ -265,7 +266,7 @@ def meta(chk, tier):
         "IEEE lemma (sqlite): k*1 ms instants and d us durations, one query set per (range piece of k, range piece of d) — pieces chosen so that microsecond and second values stay within one binade: %s" % ("instants 2000..2099 x all duration pieces" if tier == "quick" else "all pieces 1970..2099 x 0..30 d"),
     ]
     chk.stubs = ["as C02; real json runs on the pooled documents", "IEEE mode: int/int division, float * and +, INTEGER-affinity cells keep the double, fromtimestamp = modf + one rounded product + round-to-nearest (symex.fp)"]
-    chk.assumptions = ["json round trip of concrete documents is stdlib (executed, trusted)", "IEEE encoding lets an exact tie round either way (over-approximation); candidates are re-sampled (blocking clauses, up to 12 models) until one reproduces natively — this is how the post-2038 duration defect of the former float pipeline was found; since the fix the pipeline uses integers and the lemma is exact for all dates", "peewee backend not covered by this check yet"]
+    chk.assumptions = ["json round trip of concrete documents is stdlib (executed, trusted)", "IEEE encoding lets an exact tie round either way (over-approximation); candidates are re-sampled (blocking clauses, up to 12 models) until one reproduces natively — this is how the post-2038 duration defect of the former float pipeline was found; since the fix the pipeline uses integers and the lemma is exact for all dates", "peewee: exact-arithmetic fidelity and ownership are covered here; its float chain total_seconds() -> REAL -> Decimal(str) -> float -> timedelta(seconds=) is C13's json-duration lemma, and its TEXT timestamps round-trip through iso8601 (contract stub)"]
 
 
 def post(chk, tier):
